@@ -1,6 +1,7 @@
 package checks
 
 import (
+	"fmt"
 	"github.com/gebn/bmc/pkg/ipmi"
 	"github.com/google/gopacket"
 )
@@ -38,6 +39,26 @@ type RawCmd struct {
 	Rsp   RawRsp
 	NoRsp bool
 	Label string
+	// FailAfter > 0: the request serialises that many times and fails from then on (a
+	// caller-defined layer whose SerializeTo depends on state of the caller's)
+	FailAfter int
+	serCount  int
+}
+
+type flakyReq struct{ c *RawCmd }
+
+func (f flakyReq) LayerType() gopacket.LayerType { return gopacket.LayerTypePayload }
+func (f flakyReq) SerializeTo(b gopacket.SerializeBuffer, opts gopacket.SerializeOptions) error {
+	f.c.serCount++
+	if f.c.serCount > f.c.FailAfter {
+		return fmt.Errorf("verif: request layer refuses to serialise (call %d)", f.c.serCount)
+	}
+	bytes, err := b.PrependBytes(len(f.c.Req))
+	if err != nil {
+		return err
+	}
+	copy(bytes, f.c.Req)
+	return nil
 }
 
 func (c *RawCmd) Name() string {
@@ -51,6 +72,9 @@ func (c *RawCmd) RemoteLUN() ipmi.LUN        { return c.LUN }
 func (c *RawCmd) Request() gopacket.SerializableLayer {
 	if c.NoReq {
 		return nil
+	}
+	if c.FailAfter > 0 {
+		return flakyReq{c}
 	}
 	return gopacket.Payload(c.Req)
 }
